@@ -226,6 +226,8 @@ pub struct Env {
     pub sim_time_ms: u64,
     /// ids of the futures that are alive (created, not dropped), in creation order
     pub live: Vec<usize>,
+    /// operations executed by the implicit teardown (`World::finish`)
+    pub finish_ops: Vec<Op>,
 }
 
 impl Env {
@@ -257,6 +259,7 @@ impl Env {
             expect_panic: false,
             sim_time_ms: 0,
             live: Vec::with_capacity(MAX_IDS),
+            finish_ops: Vec::new(),
         }
     }
 
@@ -280,6 +283,7 @@ impl Env {
         self.expect_panic = false;
         self.sim_time_ms = 0;
         self.live.clear();
+        self.finish_ops.clear();
     }
 
     /// Registers a freshly created future.
